@@ -222,7 +222,7 @@ func c03Run(run *ev.Run) {
 	answers := c03Answers()
 	specs := c03Specs()
 	targets := c03Targets[:2]
-	tail := []int{20, 20}
+	tail := []int{20, 20, 19} // up to one second before the tokens expire
 	if run.Tier == "thorough" {
 		targets = c03Targets
 		tail = []int{10, 20, 20, 9}
